@@ -7,9 +7,10 @@
 EXTENDS Sequences, Naturals, FiniteSets, TLC, Json, IOUtils
 CONSTANTS Mode, MaxTurns, Part, Parts
 
-Classes == {"ok", "empty", "blank", "comment", "prefix", "quote", "multiline", "inject", "template", "long", "unicode"}
+Classes == {"ok", "empty", "blank", "comment", "prefix", "quote", "multiline", "inject", "template", "long", "unicode", "userfirst", "directive", "noop", "ctl"}
 ClassNo(c) == CASE c = "ok" -> 0 [] c = "empty" -> 1 [] c = "blank" -> 2 [] c = "comment" -> 3 [] c = "prefix" -> 4 [] c = "quote" -> 5
                 [] c = "multiline" -> 6 [] c = "inject" -> 7 [] c = "template" -> 8 [] c = "long" -> 9 [] c = "unicode" -> 10
+                [] c = "userfirst" -> 11 [] c = "directive" -> 12 [] c = "noop" -> 13 [] c = "ctl" -> 14
 Modes == {"dialog", "single", "general", "multistep", "v2"}
 (* call positions (tasks) of a turn per mode *)
 Tasks(m) == CASE m = "dialog"    -> <<"generate_user_intent", "generate_next_steps", "generate_bot_message">>
@@ -26,13 +27,17 @@ H(s) == LET RECURSIVE G(_, _) G(t, i) == IF t = 0 THEN 3 ELSE IF i = 0 THEN G(t 
 
 Data == IF Mode = "judge" THEN JsonDeserialize(IOEnv.TRACE_FILE) ELSE <<>>
 VARIABLES script, k
+HV(v) == LET RECURSIVE G(_) G(i) == IF i = 0 THEN 7 ELSE (G(i - 1) * 17 + ClassNo(v[i])) % 99991 IN G(Len(v))
+(* two-turn scripts: the first turn is filtered by the partition BEFORE the second is enumerated (the product is 10^7) *)
 Init == \/ /\ Mode = "emit" /\ k = 0
            /\ \E m \in Modes :
                  \/ \E v1 \in TurnVecs(m) : script = [mode |-> m, turns |-> <<v1>>]
                  \/ /\ MaxTurns >= 2
-                    /\ \E v1 \in TurnVecs(m) : \E v2 \in TurnVecs(m) :
-                          /\ script = [mode |-> m, turns |-> <<v1, v2>>]
-                          /\ H([mode |-> m, turns |-> <<v1, v2>>]) = Part
+                    /\ \E v1 \in TurnVecs(m) :
+                          /\ HV(v1) % Parts = Part
+                          /\ \E v2 \in TurnVecs(m) :
+                                /\ (HV(v1) + 31 * HV(v2)) % 61 = 0
+                                /\ script = [mode |-> m, turns |-> <<v1, v2>>]
         \/ Mode = "judge" /\ k \in 1..Len(Data) /\ script = <<>>
 Spec == Init /\ [][UNCHANGED <<script, k>>]_<<script, k>>
 Emit == Mode = "emit" => PrintT(ToJson(script))
